@@ -178,6 +178,26 @@ def iter_dump(path: str):
             yield parse_state_block("".join(block))
 
 
+def _parse_blocks(blocks):
+    return [parse_state_block(b) for b in blocks]
+
+
+def load_dump(path: str, procs: int = 16) -> list[dict]:
+    """Parse a whole dump file, in parallel."""
+    import multiprocessing as mp
+    txt = open(path).read()
+    blocks = [b.split("\n", 1)[1] for b in re.split(r"^State ", txt, flags=re.M)[1:]]
+    if len(blocks) < 2000:
+        return _parse_blocks(blocks)
+    size = (len(blocks) + procs * 4 - 1) // (procs * 4)
+    parts = [blocks[i:i + size] for i in range(0, len(blocks), size)]
+    with mp.Pool(procs) as pool:
+        out = []
+        for r in pool.map(_parse_blocks, parts):
+            out += r
+    return out
+
+
 _SIM_STATE = re.compile(r"^STATE_(\d+) ==\s*$", re.M)
 
 
